@@ -1,5 +1,6 @@
 mod common;
 mod stream;
+mod pwstr;
 mod untrusted;
 mod aead;
 mod inchash;
@@ -47,6 +48,7 @@ fn main() {
         "untrusted" => untrusted::cmd_untrusted(rest),
         "untrusted-tags" => untrusted::cmd_tags(rest),
         "untrusted-pwstr" => untrusted::cmd_pwstr(rest),
+        "pwstr" => pwstr::cmd_pwstr(rest),
         "inc-splits" => inchash::cmd_splits(rest),
         "inc-replay" => inchash::cmd_replay(rest),
         "inc-trace" => inchash::cmd_trace(rest),
